@@ -43,6 +43,45 @@ type HeapCtx struct {
 	w        *World
 	d        *Decls
 	arrSorts map[string]*Sort // heap array name -> sort (everything ever touched)
+	seen0    map[string]bool
+	emit     func(t *Term) // adds an unconditional assumption
+}
+
+// wfArr: every reference stored in heap array a is nil or allocated (id < nx); slices are well-formed.
+func wfArr(a *Term, nx *Term) *Term {
+	if a.Sort.K != SPtr || a.Sort.V == nil {
+		return nil
+	}
+	p := &Term{"wp", SPtr}
+	switch {
+	case a.Sort.V == SPtr:
+		v := Select(a, p)
+		return Forall([]Bound{{"wp", SPtr}}, Or(IsNil(v), Lt(PObjID(v), nx)), []*Term{v})
+	case a.Sort.V == SSlc:
+		v := Select(a, p)
+		return Forall([]Bound{{"wp", SPtr}}, And(Or(IsNil(SlcArr(v)), Lt(PObjID(SlcArr(v)), nx)),
+			Le(IntLit(0), SlcLen(v)), Le(SlcLen(v), SlcCap(v)), Le(IntLit(0), SlcOff(v))), []*Term{v})
+	case a.Sort.V.IsArray() && a.Sort.V.V == SPtr:
+		k := &Term{"wk", a.Sort.V.K}
+		v := Select(Select(a, p), k)
+		return Forall([]Bound{{"wp", SPtr}, {"wk", a.Sort.V.K}}, Or(IsNil(v), Lt(PObjID(v), nx)), []*Term{v})
+	case a.Sort.V.IsArray() && a.Sort.V.V == SSlc:
+		k := &Term{"wk", a.Sort.V.K}
+		v := Select(Select(a, p), k)
+		return Forall([]Bound{{"wp", SPtr}, {"wk", a.Sort.V.K}}, And(Or(IsNil(SlcArr(v)), Lt(PObjID(SlcArr(v)), nx)),
+			Le(IntLit(0), SlcLen(v)), Le(SlcLen(v), SlcCap(v)), Le(IntLit(0), SlcOff(v))), []*Term{v})
+	}
+	return nil
+}
+
+// noteHavoc records well-formedness of a freshly introduced heap array constant
+func (h *HeapCtx) noteHavoc(a *Term, nx *Term) {
+	if h.emit == nil {
+		return
+	}
+	if t := wfArr(a, nx); t != nil {
+		h.emit(t)
+	}
 }
 
 func (h *HeapCtx) arr(st *State, name string, sort *Sort) *Term {
@@ -52,7 +91,15 @@ func (h *HeapCtx) arr(st *State, name string, sort *Sort) *Term {
 	if t, ok := st.heap[name]; ok {
 		return t
 	}
-	return h.d.Const(name+"@0", sort)
+	c := h.d.Const(name+"@0", sort)
+	if h.seen0 == nil {
+		h.seen0 = map[string]bool{}
+	}
+	if !h.seen0[name] {
+		h.seen0[name] = true
+		h.noteHavoc(c, h.d.Const("$next@0", SInt))
+	}
+	return c
 }
 
 func (h *HeapCtx) setArr(st *State, name string, t *Term) {
